@@ -50,6 +50,7 @@ UNWIND = 14
 HARNESS_LOOPS = ["main.%d:40" % i for i in range(4)] + ["c05_env.%d:70" % i for i in range(14)] + \
                 ["c05_engine_env.%d:70" % i for i in range(8)] + ["c05_init_symbolic.%d:40" % i for i in range(48)] + \
                 ["c05_anchor.%d:70" % i for i in range(2)] + ["c05_pkey_setup.%d:12" % i for i in range(3)]
+HEAVY = {("x509min", "check-direct-trust")}
 SPECIAL_UNWIND = {"strlen": 260, "verify-SKE-sig": 50, "verify-CV-sig": 50}
 
 
@@ -70,10 +71,16 @@ def queries():
             if cov is not None and n.name not in cov:
                 continue
             units = t0tool.effect_units(p)
-            qs.append(Q("nat-%s-%d-%s" % (key, n.op, t0tool.sanitise(n.name)), "C05_native.c", units=units,
-                        defs=["-DC05_KEY_%s=1" % key, "-DOP=%d" % n.op, "-I" + d, "-I" + os.path.join(ROOT, "encoders")],
-                        unwind=SPECIAL_UNWIND.get(n.name, UNWIND), unwindset=HARNESS_LOOPS, timeout=300, tier="quick",
-                        desc="native word '%s' (opcode %d) of %s from any VM/context state under its call-site precondition: memory safety, field containment of context-offset operands, termination" % (n.name, n.op, p.rel)))
+            base = ["-DC05_KEY_%s=1" % key, "-DOP=%d" % n.op, "-I" + d, "-I" + os.path.join(ROOT, "encoders")]
+            desc = "native word '%s' (opcode %d) of %s from any VM/context state under its call-site precondition: memory safety, field containment of context-offset operands, termination" % (n.name, n.op, p.rel)
+            variants = [("", [], "quick", 300, "")]
+            if (key, n.name) in HEAVY:
+                variants = [("", ["-DC05_KEYLEN_ENUM=1"], "quick", 300, "; EE key part lengths in {0,1,5}x{0,1,3}"),
+                            ("-full", [], "thorough", 900, "; EE key part lengths any value <= 12")]
+            for (suf, xd, tier, to, dx) in variants:
+                qs.append(Q("nat-%s-%d-%s%s" % (key, n.op, t0tool.sanitise(n.name), suf), "C05_native.c", units=units,
+                            defs=base + xd, unwind=SPECIAL_UNWIND.get(n.name, UNWIND), unwindset=HARNESS_LOOPS,
+                            timeout=to, tier=tier, desc=desc + dx))
     return qs
 
 
